@@ -350,3 +350,159 @@ func (w *World) errDecimalCtx(f *ssa.Function, ed ssa.Value) ssa.Value {
 	}
 	return nil
 }
+
+func init() {
+	register(&Rule{ID: "C12.R6", Min: 1,
+		Text: "Exp's reduced argument keeps the digits the series needs: the value that is the dividend of the series' division is either never rounded, or rounded under a context whose Precision is the series' own precision plus a non-negative constant (the same value that is stored as the working precision of the series) — rounded to the caller's or the stage-1 precision, the error is multiplied by 10^t when the sum is raised to the power 10^t (Exp(91.44500000000001) at Precision 4 was 26 ulps off)",
+		Run:  ruleExpArgumentPrecision})
+	register(&Rule{ID: "C12.R7", Min: 2,
+		Text: "constants carry guard digits: the digit count a composite function asks of a constant table (ln 10, 1/ln 10) is the caller's Precision plus a positive constant, never the caller's Precision itself — the product with the constant is rounded to the caller's precision afterwards, and a constant of exactly that many digits contributes an error of its own (Log10(9) at Precision 2 = 0.94, exact 0.9542)",
+		Run:  ruleConstantGuardDigits})
+}
+
+// precisionValueAt: the value last stored into field Precision of the context ctx (a pointer value of f)
+// among the stores that dominate instruction at; conversions stripped. nil if there is none (the constructor's
+// own precision is then returned if ctx is a WithPrecision call).
+func (w *World) precisionValueAt(f *ssa.Function, ctx ssa.Value, at ssa.Instruction) ssa.Value {
+	var best *ssa.Store
+	for _, st := range storesIn(f) {
+		fa, ok := st.Addr.(*ssa.FieldAddr)
+		if !ok || basePtr(fa.X) != basePtr(ctx) || w.exprOf(f, st.Addr).Name != "Precision" || !instrDominates(st, at) {
+			continue
+		}
+		if best == nil || instrDominates(best, st) {
+			best = st
+		}
+	}
+	var v ssa.Value
+	if best != nil {
+		v = best.Val
+	} else if ci := w.ctxCtor(basePtr(ctx)); ci != nil {
+		v = ci.Prec
+	}
+	for v != nil {
+		if c, ok := v.(*ssa.Convert); ok {
+			v = c.X
+			continue
+		}
+		if c, ok := v.(*ssa.ChangeType); ok {
+			v = c.X
+			continue
+		}
+		break
+	}
+	return v
+}
+
+func ruleExpArgumentPrecision(w *World, r *RuleResult) {
+	f := w.fn("(*Context).Exp")
+	if f == nil {
+		r.anchorMissing("(*Context).Exp")
+		return
+	}
+	key := "(*Context).Exp | the reduced argument is rounded at the series' precision or not at all"
+	// the series division: a wrapper Quo inside a loop
+	var quo *ssa.Call
+	for _, body := range loopsOf(f) {
+		for b := range body {
+			for _, in := range b.Instrs {
+				if c, ok := in.(*ssa.Call); ok && w.calleeName(c) == "(*ErrDecimal).Quo" && len(c.Common().Args) == 4 {
+					quo = c
+				}
+			}
+		}
+	}
+	if quo == nil {
+		r.ok(key, w.pos(f.Pos()), "no series division by an ErrDecimal wrapper inside a loop of Exp: this shape is not decided", false)
+		return
+	}
+	rArg := basePtr(quo.Common().Args[2])
+	edCtx := w.errDecimalCtx(f, quo.Common().Args[0])
+	if edCtx == nil {
+		r.ok(key, w.instrPos(quo), "the context of the series' ErrDecimal cannot be told: this shape is not decided", false)
+		return
+	}
+	series := w.precisionValueAt(f, edCtx, quo)
+	reach := w.reachesFn(rounderRound)
+	var bad []string
+	n := 0
+	for _, ci := range callsIn(f) {
+		c, ok := ci.(*ssa.Call)
+		if !ok || c == quo {
+			continue
+		}
+		g := callee(c)
+		if g == nil || !reach[g] || len(c.Common().Args) < 2 || !isContextPtr(c.Common().Args[0].Type()) {
+			continue
+		}
+		// a rounding call whose destination is the reduced argument
+		if basePtr(c.Common().Args[1]) != rArg {
+			continue
+		}
+		if !(c.Block() == quo.Block() && instrIndex(c) < instrIndex(quo) || reaches(c.Block(), quo.Block())) {
+			continue
+		}
+		n++
+		pv := w.precisionValueAt(f, c.Common().Args[0], c)
+		okPrec := pv != nil && series != nil && pv == series
+		if bo, isB := pv.(*ssa.BinOp); isB && bo.Op == token.ADD && series != nil {
+			for _, pr := range [][2]ssa.Value{{bo.X, bo.Y}, {bo.Y, bo.X}} {
+				if k, isK := pr[1].(*ssa.Const); isK && k.Value != nil && ci2(k) >= 0 && pr[0] == series {
+					okPrec = true
+				}
+			}
+		}
+		if !okPrec {
+			bad = append(bad, fmt.Sprintf("%s at %s rounds the reduced argument under Precision = %s, which is not the series' precision %s plus a constant", w.calleeName(c), w.instrPos(c), w.exprOf(f, pv).String(), w.exprOf(f, series).String()))
+		}
+	}
+	if len(bad) > 0 {
+		r.bad(key, w.instrPos(quo), strings.Join(bad, "; ")+": digits the series needs are dropped before it — the error of the argument is multiplied by 10^t when the sum is raised to the power 10^t")
+	} else if n > 0 {
+		r.ok(key, w.instrPos(quo), fmt.Sprintf("%d rounding(s) of the reduced argument, each under the series' own precision plus a non-negative constant", n), true)
+	} else {
+		r.ok(key, w.instrPos(quo), "the reduced argument reaches the series unrounded", true)
+	}
+}
+
+func ruleConstantGuardDigits(w *World, r *RuleResult) {
+	n := 0
+	for _, name := range w.Names {
+		f := w.Funcs[name]
+		if !strings.HasPrefix(name, "(*Context).") {
+			continue
+		}
+		for _, ci := range callsIn(f) {
+			c, ok := ci.(*ssa.Call)
+			if !ok || !strings.HasSuffix(w.calleeName(c), ").get") || len(c.Common().Args) != 2 {
+				continue
+			}
+			if !typeIs(c.Common().Args[0].Type(), apdPath, "constWithPrecision") {
+				continue
+			}
+			n++
+			key := fmt.Sprintf("%s | constant %s is fetched with guard digits", name, w.exprOf(f, c.Common().Args[0]).String())
+			guard := false
+			w.exprOf(f, c.Common().Args[1]).walk(func(e *Expr) bool {
+				if e.Op == "bin" && e.Name == "+" && len(e.Args) == 2 {
+					for _, a := range e.Args {
+						if a.Op == "const" {
+							if k, isK := a.V.(*ssa.Const); isK && k.Value != nil && ci2(k) > 0 {
+								guard = true
+							}
+						}
+					}
+				}
+				return true
+			})
+			if guard {
+				r.ok(key, w.instrPos(c), "the digit count is "+w.exprOf(f, c.Common().Args[1]).String(), true)
+			} else {
+				r.bad(key, w.instrPos(c), "the constant is fetched with "+w.exprOf(f, c.Common().Args[1]).String()+" digits, without guard digits: its own rounding error is of the size of the result's unit (the table serves power-of-two digit counts, so at Precision 1, 2, 16, 32, 64 the constant has exactly Precision digits)")
+			}
+		}
+	}
+	if n == 0 {
+		r.anchorMissing("calls of constWithPrecision.get in Context methods")
+	}
+}
